@@ -30,6 +30,8 @@
 #include <stdexcept>
 #include <variant>
 #include <cassert>
+#include <cstdio>
+#include <cstdlib>
 #include <cstring>
 
 using namespace UTAP;
@@ -1083,6 +1085,21 @@ static const char* get_builtin_fun_name(kind_t kind)
     return funNames[kind - ABS_F];
 }
 
+/** Prints a floating-point constant as the shortest literal that reads back as the same value and as a double. */
+static std::ostream& print_double(std::ostream& os, double value)
+{
+    char buf[32];
+    for (int precision = 6; precision <= 17; ++precision) {
+        snprintf(buf, sizeof(buf), "%.*g", precision, value);
+        if (strtod(buf, nullptr) == value)
+            break;
+    }
+    os << buf;
+    if (strpbrk(buf, ".en") == nullptr)  // digits only: keep it a floating-point literal
+        os << ".0";
+    return os;
+}
+
 /** Prints the binder of a quantifier the way it is declared: "name : type" with the type in declaration syntax. */
 static std::ostream& print_binder(std::ostream& os, const symbol_t& symbol, bool old)
 {
@@ -1304,7 +1321,7 @@ std::ostream& expression_t::print(std::ostream& os, bool old) const
     case CONSTANT:
 
         if (get_type().is(Constants::DOUBLE)) {
-            os << get_double_value();
+            print_double(os, get_double_value());
         } else if (get_type().is_string()) {
             os << get_string_value();
         } else if (get_type().is_integer()) {
